@@ -107,10 +107,20 @@ where
     where
         T: Ord,
     {
-        let a = parse_filesize(&self.values[i].to_string()).unwrap_or(0);
-        let b = parse_filesize(&other.values[i].to_string()).unwrap_or(0);
+        let a = Self::numeric_key(&self.values[i]);
+        let b = Self::numeric_key(&other.values[i]);
 
-        a.cmp(&b)
+        a.total_cmp(&b)
+    }
+
+    /// A size (possibly with a unit), or any other number, e.g. a negative or fractional expression value
+    #[inline]
+    fn numeric_key(value: &T) -> f64 {
+        let s = value.to_string();
+        match parse_filesize(&s) {
+            Some(size) => size as f64,
+            None => s.parse::<f64>().unwrap_or(0.0),
+        }
     }
 
     #[inline]
